@@ -119,6 +119,11 @@ def corrupt(path, c, d):
             else:
                 ev.create_dataset("index", data=np.arange(
                     len(ev["deform"]))[::-1] + 1)
+        elif c == "indexlen":
+            n = len(ev["deform"])
+            if "index" in ev:
+                del ev["index"]
+            ev.create_dataset("index", data=np.arange(1, max(n - 1, 1)))
         elif c == "indexoffset":
             n = len(ev["deform"])
             if "index" in ev:
